@@ -23,6 +23,7 @@ type Config struct {
 	InjectiveSprintf bool
 	ExactDecimal bool
 	DecodeMaxLen int
+	ParamMaxLen int
 	Solver          string
 	LogSMT          string
 	Known           map[string]bool // ids of findings with status "known"
